@@ -243,6 +243,11 @@ def _slug(s):
 
 def write_evidence(mod, prop, tier, seed, results, metas, known_hits, violations, undecided, errors, canary_results, wall, assumed=()):
     level = getattr(mod, "LEVEL", "proof")
+    bounded_backends = set(getattr(mod, "BOUNDED_BACKENDS", ()))
+    bounded = [r for r in results if r["backend"] in bounded_backends]
+    if level == "proof" and bounded:
+        # bounded stand-ins are reported separately and never counted as discharged obligations
+        results = [r for r in results if r["backend"] not in bounded_backends]
     by_backend = {}
     for r in results:
         b = by_backend.setdefault(r["backend"], {"obligations": 0, "discharged": 0, "seconds": 0.0})
@@ -260,6 +265,7 @@ def write_evidence(mod, prop, tier, seed, results, metas, known_hits, violations
                 assumptions.append(x)
     lemmas = sorted({l for m in metas.values() for l in (m.get("lemmas") or [])})
     n_gen = len(results)
+    known_hits = [(e, r) for e, r in known_hits if r["backend"] not in bounded_backends or level != "proof"]
     n_known = len(known_hits)
     # the proof claim covers every generated obligation except those refuted by a listed known finding; those are
     # counted separately (refuted_by_known_findings) and are never counted as discharged
@@ -285,6 +291,9 @@ def write_evidence(mod, prop, tier, seed, results, metas, known_hits, violations
         "explanation": getattr(mod, "EXPLANATION", ""),
         "bounded_parts": list(getattr(mod, "BOUNDED", [])),
     }
+    if bounded:
+        cov["bounded_stand_ins"] = {"backends": sorted(bounded_backends), "runs": len(bounded), "passed": sum(1 for r in bounded if r["status"] == PROVED),
+                                    "counted_as_proved": False, "samples": [{k: r[k] for k in ("trace", "ob", "detail")} for r in bounded[:3]]}
     if level != "proof":
         cov["evaluations"] = n_ob
         cov["distinct_nontrivial"] = n_dis
